@@ -134,6 +134,9 @@ def quoteParagraphContentFilter(text: str, *_) -> str:
     return '\n'.join(result)
 
 
+# Container blocks nested deeper than this are not rendered as documents of their own.
+MAX_CONTAINER_DEPTH = 32
+
 defs: List[Def] = []  # Mutable definitions initialized by DEFAULT_DEFS.
 
 DEFAULT_DEFS: List[Def] = [
@@ -323,9 +326,13 @@ def render(reader: io.Reader, writer: io.Writer, allowed: Optional[List[str]] = 
                 text = blockattributes.injectHtmlAttributes(text)
             else:
                 opentag = blockattributes.injectHtmlAttributes(opentag)
+            if expand.container and reader.level >= MAX_CONTAINER_DEPTH:
+                # Too deeply nested to be rendered as a document of its own (every level takes interpreter stack).
+                options.errorCallback('block nesting limit exceeded: ' + match[0])
+                expand.container = False
             if expand.container:
                 blockattributes.opts.container = None  # Consume before recursion.
-                text = document.render(text, nesting)
+                text = document.render(text, nesting, reader.level + 1)
             else:
                 text = utils.replaceInline(text, expand)
                 if d.name == 'html':
